@@ -39,10 +39,35 @@ def fresh_types(n):
     return names[:n]
 
 
+_HINT = []
+
+
+def pool_hint():
+    """Order in which compiler-chosen signals are likely handed out - a generator hint only (it decides
+    which explicit names are worth writing next to n untyped values), never part of an oracle. Taken
+    from the compiler's advertised list when importable, else the game's virtual-signal order."""
+    if not _HINT:
+        names = []
+        try:
+            from dsl_compiler.src.common import signals as cs
+
+            names = [x for x in getattr(cs, "AVAILABLE_VIRTUAL_SIGNALS", []) if isinstance(x, str)]
+        except Exception:  # noqa: BLE001
+            names = []
+        if len(names) < 40:
+            from draftsman.data import signals as ds
+
+            names = list(ds.virtual)
+        _HINT.extend(n for n in names if n not in WILD and n != "signal-W" and "parameter" not in n)
+    return _HINT
+
+
 @st.composite
 def strategy_(draw, tier):
     steer = known.active("shared-network-leak")
-    n_u = draw(st.one_of(st.integers(1, 6), st.integers(1, 6), st.integers(20, 40), st.integers(27, 60) if tier == "thorough" else st.integers(27, 34)))
+    n_u = draw(st.one_of(st.integers(1, 6), st.integers(1, 6), st.integers(20, 40), st.integers(27, 34), st.integers(40, 58),
+                         st.integers(58, 150) if tier == "thorough" else st.integers(44, 50)))
+    hint = pool_hint()
     stmts = []
     us = []
     for i in range(n_u):
@@ -52,7 +77,12 @@ def strategy_(draw, tier):
     tty = {}
     for i in range(draw(st.integers(1, 5))):
         n = f"t{i + 1}"
-        ty = draw(st.sampled_from(POOL_HEAD + gen.ITEMS[:3]))
+        # explicit names the allocator would reach with n_u untyped values: the pool head, or any position up to n_u + 3
+        if draw(st.booleans()):
+            ty = draw(st.sampled_from(POOL_HEAD + gen.ITEMS[:3]))
+        else:
+            hi = min(len(hint) - 1, n_u + 3)
+            ty = hint[draw(st.one_of(st.integers(0, hi), st.integers(max(0, hi - 8), hi)))]
         stmts.append(Decl("Signal", n, SigLit(ty, Num(draw(st.integers(-9, 30))))))
         ts.append(n)
         tty[n] = ty
